@@ -1,5 +1,1263 @@
-use crate::Ctx;
+//! C19 - the uninitialized-buffer abstraction never overruns and counts exactly.
+//!
+//! Model-based history check. A history is a tree of views (root view on a backing store, nested
+//! views on `&mut BufferRef`, each optionally behind up to two `cap_at`s) with writes, iterator
+//! extends, raw `uninitialized_mut`/`advance` writes, reader fills and early exits. Because a nested
+//! view starts where its parent's initialized part ends and the parent advances by the child's count
+//! on release, the reference model is one linear byte string `written` plus, per view, a `limit`
+//! (global offset the view must never cross).
+//!
+//! The backing memory is pre-filled with a pattern and (where the store allows it) sits inside a
+//! larger allocation with canary bytes on both sides; every byte the model does not allow the
+//! library to touch must still hold the pattern/canary afterwards.
+//!
+//! Sections: `smoke_roomy` (canonical histories that never fill the store, run first and in order),
+//! `smoke_slice` (capacity errors on `&mut [u8]` only), `advance_past_end` (the assert behind the
+//! unsafe `advance`), `small_exhaustive` (every capacity x pre-existing length x caps x write lengths
+//! around the capacity), `histories` (generated view trees), probe `cap_at_above_remaining`.
+//!
+//! The AddressSanitizer half of the property is not part of this module (separate sanitizer build).
 
-pub fn run(_ctx: &Ctx) {
-    // not built yet
+use crate::util::{hex, Canary, CANARY_BYTE};
+use crate::{burn, ensure, ensure_eq, guard, pick, set_fuel, unlimited_fuel, Ctx, Outcome, PResult};
+use arrayvec::{Array, ArrayVec};
+use libtw2_buffer::{with_buffer, Buffer, BufferRef, CapacityError, ReadBuffer, ReadBufferRef};
+use proptest::prelude::*;
+use serde::{Deserialize, Serialize};
+use serde_json::json;
+use std::cell::Cell;
+use std::io::{self, BufReader, Read};
+use std::mem::ManuallyDrop;
+use std::sync::atomic::{AtomicU64, Ordering};
+
+/// Fill byte of all memory a view may write to but has not written yet.
+const PATTERN: u8 = 0x5A;
+const ITER_PANIC: &str = "c19: the generated iterator panics here";
+const KEY_CAP_ABOVE: &str = "cap_at_above_remaining";
+const AV_SIZES: [usize; 5] = [0, 1, 8, 32, 2048];
+
+// ---------------------------------------------------------------------------
+// Case
+
+/// A length inside `0..=cap`, from the start or from the end (stays valid while `cap` shrinks).
+#[derive(Clone, Debug, Hash, Serialize, Deserialize)]
+pub enum Len {
+    Start(u16),
+    End(u16),
+    /// cap * f / 256
+    Frac(u8),
+}
+
+impl Len {
+    fn resolve(&self, cap: usize) -> usize {
+        match *self {
+            Len::Start(k) => (k as usize).min(cap),
+            Len::End(k) => cap - (k as usize).min(cap),
+            Len::Frac(f) => cap * f as usize / 256,
+        }
+    }
+}
+
+#[derive(Clone, Debug, Hash, Serialize, Deserialize)]
+pub enum Store {
+    /// `&mut Vec<u8>` with capacity `cap` and pre-existing length `len`. `real == false`: the Vec
+    /// header points into a canary window (never reallocated or freed through the Vec).
+    Vec { cap: u8, len: Len, real: bool },
+    /// `&mut ArrayVec<[u8; AV_SIZES[n]]>` with pre-existing length `len`.
+    ArrayVec { n: u8, len: Len },
+    /// `&mut [u8]` of length `cap`.
+    Slice { cap: u8 },
+    /// `&mut &mut [u8]` of length `cap`.
+    SliceRef { cap: u8 },
+}
+
+/// Argument of `cap_at`, relative to the capacity the capped buffer has left.
+#[derive(Clone, Debug, Hash, Serialize, Deserialize)]
+pub enum Cap {
+    /// remaining - k (saturating); `Minus(0)` caps exactly at the remaining capacity
+    Minus(u8),
+    /// remaining + 1 + k
+    Plus(u8),
+    Abs(u16),
+    Huge,
+}
+
+#[derive(Clone, Debug, Hash, Serialize, Deserialize)]
+pub enum ReaderSpec {
+    Slice(Vec<u8>),
+    RepeatTake { byte: u8, n: u16 },
+    Empty,
+    Chain { first: Vec<u8>, byte: u8, n: u16 },
+    Buf { data: Vec<u8>, cap: u8 },
+}
+
+#[derive(Clone, Debug, Hash, Serialize, Deserialize)]
+pub enum Op {
+    /// `write(bytes)`
+    Write(Vec<u8>),
+    /// `extend` with an iterator yielding `n` bytes
+    Extend { n: u16, start: u8 },
+    /// `extend` with an iterator that never ends (must come back with a capacity error)
+    ExtendEndless { start: u8 },
+    /// `extend` with an iterator that yields `n` bytes and then panics (early exit by unwinding)
+    ExtendPanic { n: u8, start: u8 },
+    /// `write` of exactly `remaining - leave` bytes
+    Fill { leave: u8, start: u8 },
+    /// `write` of `remaining + 1 + extra` bytes
+    Over { extra: u8, start: u8 },
+    /// the way the codecs write: `uninitialized_mut()`, store k <= remaining bytes, `advance(k)`
+    Raw { k: u16, start: u8 },
+    /// `reader.read_buffer(<nested view, optionally capped>)`, `times` times with the same reader
+    Read { reader: ReaderSpec, times: u8, caps: Vec<Cap> },
+    /// `with_buffer(&mut view [.cap_at(..)], |nested| ..)`
+    Nested { caps: Vec<Cap>, view: Box<View> },
+}
+
+#[derive(Clone, Debug, Hash, Serialize, Deserialize)]
+pub enum OnError {
+    Continue,
+    /// the closure of this view returns right after the first capacity error
+    ExitView,
+    /// ... and so do all enclosing closures
+    ExitAll,
+}
+
+#[derive(Clone, Debug, Hash, Serialize, Deserialize)]
+pub enum End {
+    Drop,
+    Initialized,
+    /// `reader.read_buffer_ref(view)` (consumes the view, returns its initialized part)
+    ReadRef(ReaderSpec),
+}
+
+#[derive(Clone, Debug, Hash, Serialize, Deserialize)]
+pub struct View {
+    pub ops: Vec<Op>,
+    pub on_error: OnError,
+    pub end: End,
+}
+
+#[derive(Clone, Debug, Hash, Serialize, Deserialize)]
+pub struct Case {
+    pub store: Store,
+    pub caps: Vec<Cap>,
+    pub view: View,
+}
+
+// ---------------------------------------------------------------------------
+// Data
+
+fn data_byte(start: u8, i: usize) -> u8 {
+    let x = start.wrapping_add(i as u8);
+    if x == PATTERN {
+        PATTERN + 1
+    } else {
+        x
+    }
+}
+
+fn gen_bytes(start: u8, n: usize) -> Vec<u8> {
+    (0..n).map(|i| data_byte(start, i)).collect()
+}
+
+fn pre_byte(i: usize) -> u8 {
+    0xC0 | (i as u8 & 0x1f)
+}
+
+fn counted_iter<'a>(start: u8, n: usize, pulled: &'a Cell<usize>) -> impl Iterator<Item = u8> + 'a {
+    (0..n).map(move |i| {
+        burn();
+        pulled.set(pulled.get() + 1);
+        data_byte(start, i)
+    })
+}
+
+// ---------------------------------------------------------------------------
+// Model
+
+#[derive(Default, Clone, Debug)]
+struct Stats {
+    ops: u32,
+    views: u32,
+    exhaustion: u32,
+    nested: u32,
+    capped: u32,
+    cap_above: u32,
+    cap_clamped: u32,
+    reads: u32,
+    reads_nonempty: u32,
+    raw: u32,
+    endless: u32,
+    exit_view: bool,
+    exit_all: bool,
+    unused_view: bool,
+    max_depth: u32,
+    slices: u32,
+}
+
+struct Pending {
+    pos: usize,
+    /// the bytes the interrupted `extend` may have appended (a prefix of them)
+    data: Vec<u8>,
+}
+
+struct Model<'d> {
+    /// address of global offset 0 (first byte the root view may write)
+    base: usize,
+    /// bytes appended since the root view was created, in order
+    written: Vec<u8>,
+    /// global offset below which memory may legitimately differ from PATTERN (refused writes may
+    /// leave a prefix of their data behind the counted bytes, but never past the view's limit)
+    dirty_hi: usize,
+    /// slices handed out by `initialized()` / readers: (slice, global offset, what)
+    slices: Vec<(&'d [u8], usize, &'static str)>,
+    pending: Option<Pending>,
+    abort: bool,
+    allow_above: bool,
+    st: Stats,
+}
+
+/// Resolves a `cap_at` chain against `rem`; returns the arguments to pass and the capacity left.
+fn resolve_caps(caps: &[Cap], rem: usize, allow_above: bool, st: &mut Stats) -> (Vec<usize>, usize) {
+    let mut eff = rem;
+    let mut out = Vec::with_capacity(caps.len());
+    for c in caps.iter().take(2) {
+        let mut v = match *c {
+            Cap::Minus(k) => eff.saturating_sub(k as usize),
+            Cap::Plus(k) => eff + 1 + k as usize,
+            Cap::Abs(n) => n as usize,
+            Cap::Huge => usize::MAX,
+        };
+        if v > eff {
+            if allow_above {
+                st.cap_above += 1;
+            } else {
+                st.cap_clamped += 1;
+                v = eff;
+            }
+        }
+        st.capped += 1;
+        eff = eff.min(v);
+        out.push(v);
+    }
+    (out, eff)
+}
+
+/// `with_buffer` on `buf` behind zero, one or two `cap_at`s.
+fn drive<'d, B, F, R>(buf: B, caps: &[usize], f: F) -> R
+where
+    B: Buffer<'d>,
+    F: for<'b> FnOnce(BufferRef<'d, 'b>) -> R,
+{
+    match *caps {
+        [] => with_buffer(buf, f),
+        [a] => with_buffer(buf.cap_at(a), f),
+        [a, b] => with_buffer(buf.cap_at(a).cap_at(b), f),
+        _ => unreachable!(),
+    }
+}
+
+fn read_into<'d, R: ReadBuffer, B: Buffer<'d>>(r: &mut R, buf: B, caps: &[usize]) -> io::Result<&'d [u8]> {
+    match *caps {
+        [] => r.read_buffer(buf),
+        [a] => r.read_buffer(buf.cap_at(a)),
+        [a, b] => r.read_buffer(buf.cap_at(a).cap_at(b)),
+        _ => unreachable!(),
+    }
+}
+
+struct ReaderModel {
+    stream: Vec<u8>,
+    consumed: usize,
+    exact: bool,
+    name: &'static str,
+}
+
+impl ReaderModel {
+    fn new(spec: &ReaderSpec) -> ReaderModel {
+        let (stream, exact, name) = match spec {
+            ReaderSpec::Slice(d) => (d.clone(), true, "&[u8]"),
+            ReaderSpec::RepeatTake { byte, n } => (vec![*byte; *n as usize], true, "Take<Repeat>"),
+            ReaderSpec::Empty => (Vec::new(), true, "Empty"),
+            ReaderSpec::Chain { first, byte, n } => {
+                let mut s = first.clone();
+                s.extend(std::iter::repeat(*byte).take(*n as usize));
+                (s, false, "Chain<&[u8], Take<Repeat>>")
+            }
+            ReaderSpec::Buf { data, .. } => (data.clone(), false, "BufReader<&[u8]>"),
+        };
+        ReaderModel {
+            stream,
+            consumed: 0,
+            exact,
+            name,
+        }
+    }
+    /// `got` = the bytes one `read` call delivered into a buffer with `rem` bytes left.
+    fn check(&mut self, got: &[u8], rem: usize) -> Result<(), String> {
+        let left = &self.stream[self.consumed..];
+        ensure!(
+            got.len() <= rem,
+            "{}: read reported {} bytes into a buffer with {} bytes left",
+            self.name,
+            got.len(),
+            rem
+        );
+        ensure!(
+            got.len() <= left.len() && got == &left[..got.len()],
+            "{}: bytes reported as read [{}] are not the next bytes of the reader [{}]",
+            self.name,
+            hex(got),
+            hex(&left[..left.len().min(got.len() + 4)])
+        );
+        if self.exact {
+            ensure_eq!(got.len(), rem.min(left.len()), "{}: number of bytes read (buffer has {} left)", self.name, rem);
+        } else if rem > 0 && !left.is_empty() {
+            ensure!(!got.is_empty(), "{}: read nothing although reader and buffer both have room", self.name);
+        }
+        self.consumed += got.len();
+        Ok(())
+    }
+}
+
+macro_rules! with_reader {
+    ($spec:expr, $r:ident => $body:expr) => {
+        match $spec {
+            ReaderSpec::Slice(d) => {
+                let mut $r = &d[..];
+                $body
+            }
+            ReaderSpec::RepeatTake { byte, n } => {
+                let mut $r = io::repeat(*byte).take(*n as u64);
+                $body
+            }
+            ReaderSpec::Empty => {
+                let mut $r = io::empty();
+                $body
+            }
+            ReaderSpec::Chain { first, byte, n } => {
+                let mut $r = (&first[..]).chain(io::repeat(*byte).take(*n as u64));
+                $body
+            }
+            ReaderSpec::Buf { data, cap } => {
+                let mut $r = BufReader::with_capacity(*cap as usize, &data[..]);
+                $body
+            }
+        }
+    };
+}
+
+impl<'d> Model<'d> {
+    /// Invariants of a live view: remaining() and the uninitialized part agree with the model and
+    /// nothing behind the counted bytes has been touched.
+    fn check_view(&self, b: &mut BufferRef<'d, '_>, limit: usize, when: &str) -> Result<(), String> {
+        let pos = self.written.len();
+        ensure!(pos <= limit, "model: {} bytes counted in a view limited to {} ({})", pos, limit, when);
+        let want = limit - pos;
+        ensure_eq!(b.remaining(), want, "remaining() {} ({} bytes written so far)", when, pos);
+        let tail = unsafe { b.uninitialized_mut() };
+        ensure_eq!(tail.len(), want, "uninitialized_mut().len() {}", when);
+        if !tail.is_empty() {
+            ensure_eq!(
+                tail.as_ptr() as usize,
+                self.base + pos,
+                "uninitialized_mut() {} does not start right behind the {} initialized bytes",
+                when,
+                pos
+            );
+        }
+        let from = self.dirty_hi.saturating_sub(pos).min(tail.len());
+        if let Some(i) = tail[from..].iter().position(|&x| x != PATTERN) {
+            return Err(format!(
+                "{}: byte at offset {} was modified (0x{:02x}) although only {} bytes are counted as initialized",
+                when,
+                pos + from + i,
+                tail[from + i],
+                pos
+            ));
+        }
+        Ok(())
+    }
+
+    /// Book-keeping after a `write`/`extend` of `data` (the complete data offered) that returned `res`.
+    /// Returns whether the call was refused.
+    fn settle(
+        &mut self,
+        b: &BufferRef<'d, '_>,
+        limit: usize,
+        data: &[u8],
+        res: Result<(), CapacityError>,
+        what: &str,
+    ) -> Result<bool, String> {
+        let pos = self.written.len();
+        let rem = limit - pos;
+        let after = b.remaining();
+        ensure!(after <= rem, "{}: remaining() grew from {} to {}", what, rem, after);
+        let appended = rem - after;
+        if data.len() <= rem {
+            ensure!(
+                res.is_ok(),
+                "{}: {} bytes refused with a capacity error although {} bytes were left",
+                what,
+                data.len(),
+                rem
+            );
+            ensure_eq!(appended, data.len(), "{}: bytes counted for an accepted write", what);
+        } else {
+            ensure!(
+                res.is_err(),
+                "{}: {} bytes accepted although only {} bytes were left",
+                what,
+                data.len(),
+                rem
+            );
+            self.st.exhaustion += 1;
+        }
+        ensure!(appended <= data.len(), "{}: {} bytes counted for {} bytes offered", what, appended, data.len());
+        self.written.extend_from_slice(&data[..appended]);
+        self.dirty_hi = self.dirty_hi.max(pos + data.len().min(rem));
+        Ok(res.is_err())
+    }
+}
+
+fn do_reads<'d, R: ReadBuffer>(
+    r: &mut R,
+    spec: &ReaderSpec,
+    b: &mut BufferRef<'d, '_>,
+    times: u8,
+    caps: &[Cap],
+    limit: usize,
+    m: &mut Model<'d>,
+) -> Result<(), String> {
+    let mut rm = ReaderModel::new(spec);
+    for t in 0..times.clamp(1, 4) {
+        burn();
+        let pos = m.written.len();
+        let rem = limit - pos;
+        let (args, eff) = resolve_caps(caps, rem, m.allow_above, &mut m.st);
+        let got: &'d [u8] = read_into(r, &mut *b, &args)
+            .map_err(|e| format!("{}: read_buffer #{} failed: {}", rm.name, t, e))?;
+        rm.check(got, eff)?;
+        m.written.extend_from_slice(got);
+        m.dirty_hi = m.dirty_hi.max(pos + got.len());
+        m.slices.push((got, pos, "read_buffer()"));
+        m.st.reads += 1;
+        m.st.nested += 1;
+        if !got.is_empty() {
+            m.st.reads_nonempty += 1;
+        }
+        m.check_view(b, limit, "after read_buffer")?;
+    }
+    Ok(())
+}
+
+/// Applies one op; Ok(true) = the op ended in a capacity error.
+fn apply_op<'d>(
+    b: &mut BufferRef<'d, '_>,
+    op: &Op,
+    limit: usize,
+    depth: u32,
+    m: &mut Model<'d>,
+) -> Result<bool, String> {
+    let pos = m.written.len();
+    let rem = limit - pos;
+    m.st.ops += 1;
+    match op {
+        Op::Write(data) => {
+            let r = b.write(data);
+            m.settle(b, limit, data, r, "write")
+        }
+        Op::Fill { leave, start } => {
+            let data = gen_bytes(*start, rem.saturating_sub(*leave as usize));
+            let r = b.write(&data);
+            m.settle(b, limit, &data, r, "write")
+        }
+        Op::Over { extra, start } => {
+            let data = gen_bytes(*start, rem + 1 + *extra as usize);
+            let r = b.write(&data);
+            m.settle(b, limit, &data, r, "write")
+        }
+        Op::Extend { n, start } => {
+            let pulled = Cell::new(0);
+            let r = b.extend(counted_iter(*start, *n as usize, &pulled));
+            let data = gen_bytes(*start, *n as usize);
+            m.settle(b, limit, &data, r, "extend")
+        }
+        Op::ExtendEndless { start } => {
+            let pulled = Cell::new(0);
+            let start = *start;
+            let r = b.extend((0usize..).map(|i| {
+                burn();
+                pulled.set(pulled.get() + 1);
+                data_byte(start, i)
+            }));
+            m.st.endless += 1;
+            let data = gen_bytes(start, rem + 1);
+            m.settle(b, limit, &data, r, "extend(endless iterator)")
+        }
+        Op::ExtendPanic { n, start } => {
+            let n = *n as usize;
+            let pulled = Cell::new(0);
+            m.pending = Some(Pending {
+                pos,
+                data: gen_bytes(*start, n.min(rem)),
+            });
+            let r = b.extend(counted_iter(*start, n, &pulled).chain(std::iter::once_with(|| -> u8 { panic!("{}", ITER_PANIC) })));
+            // came back: the end of the iterator was not reached
+            m.pending = None;
+            let data = gen_bytes(*start, n + 1);
+            m.settle(b, limit, &data, r, "extend(iterator that panics at its end)")
+        }
+        Op::Raw { k, start } => {
+            let k = pick(*k, rem + 1);
+            let data = gen_bytes(*start, k);
+            unsafe {
+                let u = b.uninitialized_mut();
+                ensure_eq!(u.len(), rem, "uninitialized_mut().len()");
+                u[..k].copy_from_slice(&data);
+                b.advance(k);
+            }
+            m.written.extend_from_slice(&data);
+            m.dirty_hi = m.dirty_hi.max(pos + k);
+            m.st.raw += 1;
+            Ok(false)
+        }
+        Op::Read { reader, times, caps } => {
+            with_reader!(reader, r => do_reads(&mut r, reader, b, *times, caps, limit, m))?;
+            Ok(false)
+        }
+        Op::Nested { caps, view } => {
+            let (args, eff) = resolve_caps(caps, rem, m.allow_above, &mut m.st);
+            m.st.nested += 1;
+            drive(&mut *b, &args, |c| run_view(c, view, pos + eff, depth + 1, m))?;
+            Ok(false)
+        }
+    }
+}
+
+fn run_view<'d>(mut b: BufferRef<'d, '_>, view: &View, limit: usize, depth: u32, m: &mut Model<'d>) -> Result<(), String> {
+    let start = m.written.len();
+    m.st.views += 1;
+    m.st.max_depth = m.st.max_depth.max(depth);
+    m.check_view(&mut b, limit, "of a new view")?;
+    if view.ops.is_empty() && matches!(view.end, End::Drop) {
+        m.st.unused_view = true;
+    }
+    for op in &view.ops {
+        burn();
+        let refused = apply_op(&mut b, op, limit, depth, m)?;
+        if m.abort {
+            return Ok(());
+        }
+        m.check_view(&mut b, limit, "after an operation")?;
+        if refused {
+            match view.on_error {
+                OnError::Continue => {}
+                OnError::ExitView => {
+                    m.st.exit_view = true;
+                    return Ok(());
+                }
+                OnError::ExitAll => {
+                    m.st.exit_all = true;
+                    m.abort = true;
+                    return Ok(());
+                }
+            }
+        }
+    }
+    match &view.end {
+        End::Drop => {}
+        End::Initialized => {
+            let s = b.initialized();
+            ensure_eq!(hex(s), hex(&m.written[start..]), "initialized() of a view at depth {}", depth);
+            m.slices.push((s, start, "initialized()"));
+            m.st.slices += 1;
+        }
+        End::ReadRef(spec) => {
+            let pos = m.written.len();
+            let rem = limit - pos;
+            let mut rm = ReaderModel::new(spec);
+            let s: &'d [u8] = with_reader!(spec, r => ReadBufferRef::read_buffer_ref(&mut r, b))
+                .map_err(|e| format!("{}: read_buffer_ref failed: {}", rm.name, e))?;
+            // read_buffer_ref hands out the whole initialized part of the view it consumed
+            ensure!(
+                s.len() >= pos - start && hex(&s[..pos - start]) == hex(&m.written[start..]),
+                "read_buffer_ref: result [{}] does not begin with the {} bytes written through the view before [{}]",
+                hex(s),
+                pos - start,
+                hex(&m.written[start..])
+            );
+            let got = &s[pos - start..];
+            rm.check(got, rem)?;
+            m.written.extend_from_slice(got);
+            m.dirty_hi = m.dirty_hi.max(pos + got.len());
+            m.slices.push((s, start, "read_buffer_ref()"));
+            m.st.reads += 1;
+            if !got.is_empty() {
+                m.st.reads_nonempty += 1;
+            }
+        }
+    }
+    Ok(())
+}
+
+/// What is left of a history once every view has been released (free of the data lifetime).
+struct RootOut {
+    written: Vec<u8>,
+    dirty_hi: usize,
+    /// Some = the history ended by unwinding out of this interrupted extend
+    pending: Option<Pending>,
+    limit: usize,
+    st: Stats,
+}
+
+fn run_root<'d, B: Buffer<'d>>(buf: B, case: &Case, base: usize, root_rem: usize, allow_above: bool) -> Result<RootOut, String> {
+    let mut st = Stats::default();
+    let (args, eff) = resolve_caps(&case.caps, root_rem, allow_above, &mut st);
+    let mut m = Model {
+        base,
+        written: Vec::new(),
+        dirty_hi: 0,
+        slices: Vec::new(),
+        pending: None,
+        abort: false,
+        allow_above,
+        st,
+    };
+    let r = guard(|| drive(buf, &args, |b| run_view(b, &case.view, eff, 0, &mut m)));
+    match r {
+        Ok(Ok(())) => m.pending = None,
+        Ok(Err(e)) => return Err(e),
+        Err(p) => {
+            if p.fuel || p.message != ITER_PANIC || m.pending.is_none() {
+                return Err(format!("unexpected {} ({} bytes written before)", p, m.written.len()));
+            }
+        }
+    }
+    // every view is released now; the slices handed out must still be the bytes written
+    for (s, at, what) in &m.slices {
+        ensure!(
+            s.is_empty() || s.as_ptr() as usize == base + at,
+            "{}: slice does not lie at offset {} of the buffer",
+            what,
+            at
+        );
+        ensure_eq!(hex(s), hex(&m.written[*at..*at + s.len()]), "{}: slice contents after all views were released", what);
+    }
+    Ok(RootOut {
+        written: m.written,
+        dirty_hi: m.dirty_hi,
+        pending: m.pending,
+        limit: eff,
+        st: m.st,
+    })
+}
+
+/// `grown`: how much the container's length grew (None: the store has no length).
+/// `region`: the memory from the first byte the root view could write to the end of the store.
+fn final_check(out: &RootOut, grown: Option<usize>, region: &[u8], store: &str) -> Result<(), String> {
+    let counted = out.written.len();
+    let mut expect = out.written.clone();
+    let mut may_touch = out.dirty_hi.max(counted);
+    let len = match (&out.pending, grown) {
+        (None, Some(g)) => {
+            ensure_eq!(g, counted, "{}: length growth after release vs bytes written", store);
+            g
+        }
+        (None, None) => counted,
+        (Some(p), g) => {
+            // unwound out of an extend: any prefix of its data may have been appended
+            debug_assert_eq!(p.pos, counted);
+            let g = g.unwrap_or(counted);
+            ensure!(
+                g >= counted && g <= counted + p.data.len(),
+                "{}: length grew by {} after unwinding; {} bytes were written before the interrupted extend of {} bytes",
+                store,
+                g,
+                counted,
+                p.data.len()
+            );
+            expect.extend_from_slice(&p.data[..g - counted]);
+            may_touch = may_touch.max(counted + p.data.len());
+            g
+        }
+    };
+    ensure!(len <= out.limit, "{}: {} bytes counted, capacity (after cap_at) was {}", store, len, out.limit);
+    ensure!(len <= region.len(), "{}: {} bytes counted, store has room for {}", store, len, region.len());
+    ensure_eq!(hex(&region[..len]), hex(&expect), "{}: contents after release", store);
+    let from = may_touch.min(region.len());
+    if let Some(i) = region[from..].iter().position(|&x| x != PATTERN) {
+        return Err(format!(
+            "{}: byte at offset {} behind the {} written bytes was modified (0x{:02x}); capacity after cap_at {}, store room {}",
+            store,
+            from + i,
+            len,
+            region[from + i],
+            out.limit,
+            region.len()
+        ));
+    }
+    Ok(())
+}
+
+fn check_pre(region: &[u8], pre: usize, store: &str) -> Result<(), String> {
+    for i in 0..pre {
+        ensure!(region[i] == pre_byte(i), "{}: pre-existing byte {} changed to 0x{:02x}", store, i, region[i]);
+    }
+    Ok(())
+}
+
+#[repr(C)]
+struct Guarded<A: Array<Item = u8>> {
+    before: [u8; 64],
+    av: ArrayVec<A>,
+    after: [u8; 64],
+}
+
+fn check_arrayvec<A: Array<Item = u8>>(full: A, len: &Len, case: &Case, allow_above: bool) -> Result<RootOut, String> {
+    let mut g = Guarded {
+        before: [CANARY_BYTE; 64],
+        av: ArrayVec::from(full),
+        after: [CANARY_BYTE; 64],
+    };
+    let n = g.av.capacity();
+    let pre = len.resolve(n);
+    for i in 0..pre {
+        g.av[i] = pre_byte(i);
+    }
+    g.av.truncate(pre);
+    let base = g.av.as_ptr() as usize + pre;
+    let out = run_root(&mut g.av, case, base, n - pre, allow_above)?;
+    let after = g.av.len();
+    ensure!(after <= n, "ArrayVec<{}>: length {} after release", n, after);
+    ensure!(
+        g.before.iter().chain(g.after.iter()).all(|&x| x == CANARY_BYTE),
+        "ArrayVec<{}>: memory next to the ArrayVec was modified",
+        n
+    );
+    ensure_eq!(g.av.as_ptr() as usize + pre, base, "ArrayVec moved");
+    // all n bytes were initialized (the ArrayVec was built from a full array)
+    let region = unsafe { std::slice::from_raw_parts(g.av.as_ptr(), n) };
+    check_pre(region, pre, "ArrayVec")?;
+    let grown = after
+        .checked_sub(pre)
+        .ok_or_else(|| format!("ArrayVec<{}>: length shrank from {} to {}", n, pre, after))?;
+    final_check(&out, Some(grown), &region[pre..], "ArrayVec")?;
+    Ok(out)
+}
+
+fn check_store(case: &Case, allow_above: bool) -> Result<(RootOut, &'static str), String> {
+    match &case.store {
+        Store::Vec { cap, len, real: false } => {
+            let cap = *cap as usize;
+            let pre = len.resolve(cap);
+            let mut can = Canary::new(cap);
+            for (i, x) in can.window().iter_mut().enumerate() {
+                *x = if i < pre { pre_byte(i) } else { PATTERN };
+            }
+            let p = can.window().as_mut_ptr();
+            // A Vec header over the canary window. It is never grown, shrunk or dropped, so the
+            // allocator never sees the pointer; the library only uses len/capacity/as_mut_ptr/set_len.
+            let mut v = ManuallyDrop::new(unsafe { Vec::from_raw_parts(p, pre, cap) });
+            let out = run_root(&mut *v, case, p as usize + pre, cap - pre, allow_above)?;
+            let (after, cap_after, ptr_after) = (v.len(), v.capacity(), v.as_ptr() as usize);
+            ensure!(after <= cap, "Vec: length {} after release exceeds the capacity {}", after, cap);
+            ensure_eq!(cap_after, cap, "Vec: capacity changed");
+            ensure_eq!(ptr_after, p as usize, "Vec: reallocated");
+            ensure!(can.intact(), "Vec: memory outside the allocation (capacity {}) was modified", cap);
+            let region = can.window_ref();
+            check_pre(region, pre, "Vec")?;
+            let grown = after
+                .checked_sub(pre)
+                .ok_or_else(|| format!("Vec: length shrank from {} to {}", pre, after))?;
+            final_check(&out, Some(grown), &region[pre..], "Vec")?;
+            Ok((out, "store_vec"))
+        }
+        Store::Vec { cap, len, real: true } => {
+            let mut v: Vec<u8> = Vec::with_capacity(*cap as usize);
+            let cap = v.capacity();
+            let pre = len.resolve(cap);
+            v.extend((0..pre).map(pre_byte));
+            for x in v.spare_capacity_mut() {
+                x.write(PATTERN);
+            }
+            let p = v.as_ptr() as usize;
+            let out = run_root(&mut v, case, p + pre, cap - pre, allow_above)?;
+            let after = v.len();
+            ensure!(after <= cap, "Vec: length {} after release exceeds the capacity {}", after, cap);
+            ensure_eq!(v.capacity(), cap, "Vec: capacity changed");
+            ensure_eq!(v.as_ptr() as usize, p, "Vec: reallocated");
+            // all `cap` bytes were initialized above
+            let region = unsafe { std::slice::from_raw_parts(v.as_ptr(), cap) };
+            check_pre(region, pre, "Vec")?;
+            let grown = after
+                .checked_sub(pre)
+                .ok_or_else(|| format!("Vec: length shrank from {} to {}", pre, after))?;
+            final_check(&out, Some(grown), &region[pre..], "Vec")?;
+            Ok((out, "store_vec"))
+        }
+        Store::ArrayVec { n, len } => {
+            let out = match (*n).min(4) {
+                0 => check_arrayvec([PATTERN; 0], len, case, allow_above)?,
+                1 => check_arrayvec([PATTERN; 1], len, case, allow_above)?,
+                2 => check_arrayvec([PATTERN; 8], len, case, allow_above)?,
+                3 => check_arrayvec([PATTERN; 32], len, case, allow_above)?,
+                _ => check_arrayvec([PATTERN; 2048], len, case, allow_above)?,
+            };
+            Ok((out, "store_arrayvec"))
+        }
+        Store::Slice { cap } => {
+            let cap = *cap as usize;
+            let mut can = Canary::new(cap);
+            can.window().fill(PATTERN);
+            let base = can.range().0;
+            let out = run_root(can.window(), case, base, cap, allow_above)?;
+            ensure!(can.intact(), "slice: memory outside the {}-byte slice was modified", cap);
+            final_check(&out, None, can.window_ref(), "slice")?;
+            Ok((out, "store_slice"))
+        }
+        Store::SliceRef { cap } => {
+            let cap = *cap as usize;
+            let mut can = Canary::new(cap);
+            can.window().fill(PATTERN);
+            let base = can.range().0;
+            let (after_len, after_ptr, out) = {
+                let mut s: &mut [u8] = can.window();
+                // `&'d mut &'d mut [u8]` borrows `s` for as long as `s` exists; go through a raw
+                // pointer to be able to look at `s` after the view was released.
+                let p: *mut &mut [u8] = &mut s;
+                let out = run_root(unsafe { &mut *p }, case, base, cap, allow_above)?;
+                (s.len(), s.as_ptr() as usize, out)
+            };
+            ensure!(can.intact(), "slice reference: memory outside the {}-byte slice was modified", cap);
+            ensure!(after_len <= cap, "slice reference: narrowed to {} bytes of a {}-byte slice", after_len, cap);
+            ensure!(
+                after_len == 0 || after_ptr == base,
+                "slice reference: not narrowed to a prefix of the original slice"
+            );
+            final_check(&out, Some(after_len), can.window_ref(), "slice reference")?;
+            Ok((out, "store_slice_ref"))
+        }
+    }
+}
+
+pub fn check_case(case: &Case, allow_above: bool, excluded: &AtomicU64) -> PResult {
+    set_fuel(2_000_000);
+    let r = check_store(case, allow_above);
+    unlimited_fuel();
+    let (out, kind) = r?;
+    let st = &out.st;
+    if st.cap_clamped > 0 {
+        excluded.fetch_add(1, Ordering::Relaxed);
+    }
+    Ok(Outcome::nt(st.exhaustion > 0 && (st.nested > 0 || st.capped > 0))
+        .class(kind)
+        .class_if(st.nested > 0, "nested_view")
+        .class_if(st.capped > 0, "capped_view")
+        .class_if(st.cap_above > 0, "cap_above_remaining")
+        .class_if(st.cap_clamped > 0, "cap_above_clamped_known_finding")
+        .class_if(st.exhaustion > 0, "capacity_error")
+        .class_if(st.exhaustion > 0 && st.nested > 0, "capacity_error_and_nested")
+        .class_if(st.exhaustion > 0 && st.capped > 0, "capacity_error_and_capped")
+        .class_if(st.max_depth >= 2, "depth_ge_2")
+        .class_if(st.max_depth >= 4, "depth_4")
+        .class_if(st.reads > 0, "reader")
+        .class_if(st.reads_nonempty > 0, "reader_delivered_bytes")
+        .class_if(st.raw > 0, "raw_advance")
+        .class_if(st.endless > 0, "endless_iterator")
+        .class_if(st.exit_view, "exit_view_on_error")
+        .class_if(st.exit_all, "exit_all_on_error")
+        .class_if(st.unused_view, "view_dropped_unused")
+        .class_if(out.pending.is_some(), "exit_by_unwinding")
+        .class_if(st.slices > 0, "initialized_checked")
+        .class_if(out.written.len() >= 100, "over_100_bytes")
+        .class_if(out.written.is_empty(), "nothing_written")
+        .class_if(out.limit == 0, "root_capacity_0"))
+}
+
+// ---------------------------------------------------------------------------
+// Generators
+
+fn len_strategy() -> BoxedStrategy<Len> {
+    prop_oneof![
+        3 => Just(Len::Start(0)),
+        2 => (0u16..8).prop_map(Len::Start),
+        2 => (0u16..12).prop_map(Len::End),
+        3 => any::<u8>().prop_map(Len::Frac),
+        1 => (0u16..2100).prop_map(Len::Start),
+    ]
+    .boxed()
+}
+
+fn store_strategy() -> BoxedStrategy<Store> {
+    prop_oneof![
+        3 => (0u8..=64, len_strategy(), proptest::bool::weighted(0.25)).prop_map(|(cap, len, real)| Store::Vec { cap, len, real }),
+        1 => (0u8..=12, len_strategy()).prop_map(|(cap, len)| Store::Vec { cap, len, real: false }),
+        3 => (prop_oneof![1 => Just(0u8), 1 => Just(1u8), 3 => Just(2u8), 3 => Just(3u8), 2 => Just(4u8)], len_strategy())
+            .prop_map(|(n, len)| Store::ArrayVec { n, len }),
+        2 => prop_oneof![0u8..=64, 0u8..=10].prop_map(|cap| Store::Slice { cap }),
+        2 => prop_oneof![0u8..=64, 0u8..=10].prop_map(|cap| Store::SliceRef { cap }),
+    ]
+    .boxed()
+}
+
+fn cap_strategy() -> BoxedStrategy<Cap> {
+    prop_oneof![
+        3 => (0u8..4).prop_map(Cap::Minus),
+        2 => (0u8..3).prop_map(Cap::Plus),
+        2 => (0u16..70).prop_map(Cap::Abs),
+        1 => Just(Cap::Huge),
+    ]
+    .boxed()
+}
+
+fn caps_strategy() -> BoxedStrategy<Vec<Cap>> {
+    prop_oneof![
+        5 => Just(Vec::new()),
+        4 => proptest::collection::vec(cap_strategy(), 1),
+        1 => proptest::collection::vec(cap_strategy(), 2),
+    ]
+    .boxed()
+}
+
+fn bytes_strategy() -> BoxedStrategy<Vec<u8>> {
+    prop_oneof![
+        5 => proptest::collection::vec(any::<u8>(), 0..=12),
+        1 => proptest::collection::vec(any::<u8>(), 0..=80),
+    ]
+    .boxed()
+}
+
+fn reader_strategy() -> BoxedStrategy<ReaderSpec> {
+    prop_oneof![
+        3 => bytes_strategy().prop_map(ReaderSpec::Slice),
+        2 => (any::<u8>(), prop_oneof![0u16..40, 0u16..2200]).prop_map(|(byte, n)| ReaderSpec::RepeatTake { byte, n }),
+        1 => Just(ReaderSpec::Empty),
+        2 => (bytes_strategy(), any::<u8>(), 0u16..40).prop_map(|(first, byte, n)| ReaderSpec::Chain { first, byte, n }),
+        2 => (bytes_strategy(), 0u8..20).prop_map(|(data, cap)| ReaderSpec::Buf { data, cap }),
+    ]
+    .boxed()
+}
+
+fn leaf_op_strategy() -> BoxedStrategy<Op> {
+    prop_oneof![
+        5 => bytes_strategy().prop_map(Op::Write),
+        3 => (0u16..40, any::<u8>()).prop_map(|(n, start)| Op::Extend { n, start }),
+        1 => (0u16..2200, any::<u8>()).prop_map(|(n, start)| Op::Extend { n, start }),
+        2 => (0u8..4, any::<u8>()).prop_map(|(leave, start)| Op::Fill { leave, start }),
+        2 => (0u8..3, any::<u8>()).prop_map(|(extra, start)| Op::Over { extra, start }),
+        1 => any::<u8>().prop_map(|start| Op::ExtendEndless { start }),
+        1 => (0u8..20, any::<u8>()).prop_map(|(n, start)| Op::ExtendPanic { n, start }),
+        3 => (any::<u16>(), any::<u8>()).prop_map(|(k, start)| Op::Raw { k, start }),
+        3 => (reader_strategy(), 1u8..=3, caps_strategy()).prop_map(|(reader, times, caps)| Op::Read { reader, times, caps }),
+    ]
+    .boxed()
+}
+
+fn view_strategy(depth: u32) -> BoxedStrategy<View> {
+    let op = if depth == 0 {
+        leaf_op_strategy()
+    } else {
+        prop_oneof![
+            21 => leaf_op_strategy(),
+            6 => (caps_strategy(), view_strategy(depth - 1)).prop_map(|(caps, view)| Op::Nested { caps, view: Box::new(view) }),
+        ]
+        .boxed()
+    };
+    (
+        prop_oneof![
+            1 => proptest::collection::vec(op.clone(), 0..2),
+            7 => proptest::collection::vec(op, 1..8),
+        ],
+        prop_oneof![3 => Just(OnError::Continue), 1 => Just(OnError::ExitView), 1 => Just(OnError::ExitAll)],
+        prop_oneof![
+            3 => Just(End::Initialized),
+            2 => Just(End::Drop),
+            1 => reader_strategy().prop_map(End::ReadRef),
+        ],
+    )
+        .prop_map(|(ops, on_error, end)| View { ops, on_error, end })
+        .boxed()
+}
+
+fn case_strategy() -> impl Strategy<Value = Case> {
+    (store_strategy(), caps_strategy(), view_strategy(4)).prop_map(|(store, caps, view)| Case { store, caps, view })
+}
+
+// ---------------------------------------------------------------------------
+// Complete enumeration of a small sub-space: every capacity and pre-existing length
+
+fn sweep_stores() -> Vec<Store> {
+    let mut v = Vec::new();
+    for cap in 0u8..=64 {
+        for len in 0..=cap as u16 {
+            v.push(Store::Vec { cap, len: Len::Start(len), real: false });
+        }
+    }
+    for n in 0u8..4 {
+        for len in 0..=AV_SIZES[n as usize] as u16 {
+            v.push(Store::ArrayVec { n, len: Len::Start(len) });
+        }
+    }
+    for cap in 0u8..=64 {
+        v.push(Store::Slice { cap });
+        v.push(Store::SliceRef { cap });
+    }
+    v
+}
+
+fn sweep_op(k: u64) -> Op {
+    match k {
+        0 => Op::Write(Vec::new()),
+        1 => Op::Write(vec![0x11]),
+        2 => Op::Fill { leave: 1, start: 0x20 },
+        3 => Op::Fill { leave: 0, start: 0x40 },
+        _ => Op::Over { extra: 0, start: 0x60 },
+    }
+}
+
+fn sweep_caps(k: u64) -> Vec<Cap> {
+    match k {
+        0 => Vec::new(),
+        1 => vec![Cap::Minus(1)],
+        2 => vec![Cap::Minus(0)],
+        _ => vec![Cap::Plus(0)],
+    }
+}
+
+fn sweep_case(stores: &[Store], ncap: u64, four_ops: bool, mut idx: u64) -> Case {
+    let mut take = |n: u64| {
+        let r = idx % n;
+        idx /= n;
+        r
+    };
+    let d = if four_ops { Some(take(5)) } else { None };
+    let (c, b, a) = (take(5), take(5), take(5));
+    let (nested_caps, root_caps) = (take(ncap), take(ncap));
+    let store = stores[take(stores.len() as u64) as usize].clone();
+    let mut ops = vec![
+                sweep_op(a),
+                Op::Nested {
+                    caps: sweep_caps(nested_caps),
+                    view: Box::new(View {
+                        ops: vec![sweep_op(b)],
+                        on_error: OnError::Continue,
+                        end: End::Initialized,
+                    }),
+                },
+                sweep_op(c),
+    ];
+    ops.extend(d.map(sweep_op));
+    Case {
+        store,
+        caps: sweep_caps(root_caps),
+        view: View {
+            ops,
+            on_error: OnError::Continue,
+            end: End::Initialized,
+        },
+    }
+}
+
+// ---------------------------------------------------------------------------
+// Ordered smoke cases. A miscount in one of the Drop impls (`set_len` past the capacity) is undefined
+// behaviour that std answers with a non-unwinding panic (process abort) once the store is full. So the
+// check first runs histories that never fill the store (a miscount shows as a wrong length), then
+// capacity errors on `&mut [u8]` only (no write-back in Drop), and stops at the first violation.
+
+fn roomy_stores() -> Vec<Store> {
+    vec![
+        Store::Slice { cap: 16 },
+        Store::SliceRef { cap: 16 },
+        Store::Vec { cap: 16, len: Len::Start(3), real: false },
+        Store::Vec { cap: 16, len: Len::Start(3), real: true },
+        Store::ArrayVec { n: 3, len: Len::Start(3) },
+        Store::ArrayVec { n: 4, len: Len::Start(5) },
+    ]
+}
+
+fn roomy_view(k: u64) -> View {
+    let view = |ops, end| View { ops, on_error: OnError::Continue, end };
+    match k {
+        0 => view(vec![], End::Drop),
+        1 => view(vec![Op::Write(vec![1, 2, 3])], End::Initialized),
+        2 => view(
+            vec![
+                Op::Write(vec![4, 5]),
+                Op::Nested {
+                    caps: vec![],
+                    view: Box::new(view(vec![Op::Write(vec![6, 7]), Op::Raw { k: 0x3000, start: 0x30 }], End::Initialized)),
+                },
+                Op::Extend { n: 2, start: 0x70 },
+            ],
+            End::Initialized,
+        ),
+        3 => view(
+            vec![
+                Op::Nested {
+                    caps: vec![Cap::Minus(4)],
+                    view: Box::new(view(
+                        vec![Op::Read { reader: ReaderSpec::Slice(vec![8, 9, 10]), times: 1, caps: vec![] }],
+                        End::Drop,
+                    )),
+                },
+                Op::Write(vec![11]),
+            ],
+            End::ReadRef(ReaderSpec::RepeatTake { byte: 12, n: 2 }),
+        ),
+        _ => view(
+            vec![Op::Nested {
+                caps: vec![],
+                view: Box::new(view(vec![Op::Write(vec![13]), Op::ExtendPanic { n: 2, start: 0x80 }], End::Initialized)),
+            }],
+            End::Initialized,
+        ),
+    }
+}
+
+fn roomy_case(mut idx: u64) -> Case {
+    let stores = roomy_stores();
+    let mut take = |n: u64| {
+        let r = idx % n;
+        idx /= n;
+        r
+    };
+    let view = roomy_view(take(5));
+    let caps = match take(3) {
+        0 => vec![],
+        1 => vec![Cap::Minus(2)],
+        _ => vec![Cap::Minus(1), Cap::Minus(1)],
+    };
+    let store = stores[take(stores.len() as u64) as usize].clone();
+    Case { store, caps, view }
+}
+
+/// `advance` past the end of a view must not be counted: it either panics (the assert) or leaves
+/// the view in a state whose accessors still work and stay inside the capacity.
+fn check_advance_past_end(cap: usize, pre: usize, excess: usize) -> Result<bool, String> {
+    let mut can = Canary::new(cap);
+    can.window().fill(PATTERN);
+    let data = gen_bytes(0x10, pre);
+    let r: Result<(), String> = with_buffer(can.window(), |mut b| {
+        b.write(&data).map_err(|_| "write within the capacity refused".to_string())?;
+        let rem = b.remaining();
+        match guard(|| unsafe { b.advance(rem + excess) }) {
+            Err(p) if p.fuel => Err(p.to_string()),
+            Err(_) => Ok(()),
+            Ok(()) => {
+                // accepted: everything must still work and stay inside the capacity
+                let what = format!("advance({}) on a view with {} of {} bytes left was accepted", rem + excess, rem, cap);
+                let after = guard(|| (b.remaining(), b.initialized().len())).map_err(|p| format!("{}; afterwards: {}", what, p))?;
+                ensure!(
+                    after.0 <= rem && after.1 <= cap && after.0 + after.1 == cap,
+                    "{}; afterwards remaining() = {}, initialized().len() = {}",
+                    what,
+                    after.0,
+                    after.1
+                );
+                Ok(())
+            }
+        }
+    });
+    ensure!(can.intact(), "advance past the end: memory outside the slice was modified");
+    r.map(|()| true)
+}
+
+// ---------------------------------------------------------------------------
+
+pub fn run(ctx: &Ctx) {
+    ctx.set_rule(
+        "histories: proptest-generated trees of views (root on Vec / ArrayVec<0|1|8|32|2048> / &mut [u8] / &mut &mut [u8] with every \
+         capacity 0..=64 and pre-existing length, nested views up to depth 4, 0-2 cap_at below/at/above the remaining capacity on \
+         any of them) with write, extend (finite, endless, panicking iterator), uninitialized_mut+advance, reader fills \
+         (&[u8], Take<Repeat>, Empty, Chain, BufReader) and early exits (return after a capacity error, unused drop, unwinding), \
+         checked against a linear byte-string model after every step and after release, memory pre-filled with a pattern inside \
+         canaries (non-trivial = at least one capacity error AND a nested or capped view; distinct by case hash); \
+         small_exhaustive: every store with every capacity 0..=64 x every pre-existing length x root cap x nested cap x 5^3 \
+         write lengths around the remaining capacity (5^4 in the thorough tier; non-trivial = a capacity error occurred); \
+         smoke_roomy / smoke_slice: ordered canonical cases of the same kind run first; advance_past_end: every capacity 0..=64 x bytes \
+         written x excess 1..=3 (each one counts as non-trivial)",
+    );
+    ctx.assume("std readers (&[u8], Take<Repeat>, Empty, Chain, BufReader) deliver their bytes in order, never fail and store only the bytes they report");
+    ctx.assume("memory safety is observed through pattern/canary bytes only; the AddressSanitizer replay is a separate build");
+    ctx.assume("a Vec header laid over a canary window (never reallocated or dropped) behaves like a heap Vec for len/capacity/as_mut_ptr/set_len; real heap Vecs are generated as well");
+
+    let allow_above = !ctx.known_open(KEY_CAP_ABOVE);
+    let excluded = AtomicU64::new(0);
+
+    // cap_at with an argument above the capacity that is left: "no more than `len` bytes will be
+    // written" (a generic caller cannot even know the capacity of a `T: Buffer`)
+    ctx.probe(KEY_CAP_ABOVE, || {
+        let case = Case {
+            store: Store::Slice { cap: 1 },
+            caps: vec![Cap::Plus(0)],
+            view: View {
+                ops: vec![Op::Write(vec![7])],
+                on_error: OnError::Continue,
+                end: End::Initialized,
+            },
+        };
+        check_case(&case, true, &AtomicU64::new(0)).map(|_| ())
+    });
+
+    let ncap: u64 = if allow_above { 4 } else { 3 };
+    let dummy = AtomicU64::new(0);
+
+    let before = ctx.violations();
+    ctx.sweep(
+        "smoke_roomy",
+        6 * 3 * 5,
+        false,
+        |i| check_case(&roomy_case(i), allow_above, &dummy).map(|o| o.nontrivial),
+        |i| serde_json::to_value(roomy_case(i)).unwrap_or(json!(null)),
+    );
+    if ctx.violations() > before {
+        ctx.note("a history that never fills its store already fails; the remaining sections were skipped (a wrong length write-back is undefined behaviour once the store is full)".to_string());
+        return;
+    }
+    let slice_stores: Vec<Store> = (0u8..=16).map(|cap| Store::Slice { cap }).collect();
+    ctx.exhaustive(
+        "smoke_slice",
+        slice_stores.len() as u64 * 3 * 3 * 125,
+        |i| check_case(&sweep_case(&slice_stores, 3, false, i), allow_above, &dummy).map(|o| o.nontrivial),
+        |i| serde_json::to_value(sweep_case(&slice_stores, 3, false, i)).unwrap_or(json!(null)),
+    );
+    if ctx.violations() > before {
+        ctx.note("capacity errors on a plain slice already fail; the remaining sections were skipped".to_string());
+        return;
+    }
+    let pairs: Vec<(usize, usize)> = (0..=64usize).flat_map(|cap| (0..=cap).map(move |pre| (cap, pre))).collect();
+    ctx.exhaustive(
+        "advance_past_end",
+        pairs.len() as u64 * 3,
+        |i| {
+            let (cap, pre) = pairs[(i / 3) as usize];
+            check_advance_past_end(cap, pre, (i % 3) as usize + 1)
+        },
+        |i| json!({"capacity": pairs[(i / 3) as usize].0, "written": pairs[(i / 3) as usize].1, "excess": i % 3 + 1}),
+    );
+
+    // (the index -> case mapping of small_exhaustive depends on whether the cap_at finding is listed:
+    // replay an index only under the known_findings.json it was found with; `histories` replays are
+    // self-contained)
+    let stores = sweep_stores();
+    let four_ops = !ctx.quick();
+    let per_store_caps: u64 = if four_ops { 625 } else { 125 };
+    let total = stores.len() as u64 * ncap * ncap * per_store_caps;
+    ctx.exhaustive(
+        "small_exhaustive",
+        total,
+        |i| {
+            let case = sweep_case(&stores, ncap, four_ops, i);
+            check_case(&case, allow_above, &dummy).map(|o| o.nontrivial)
+        },
+        |i| serde_json::to_value(sweep_case(&stores, ncap, four_ops, i)).unwrap_or(json!(null)),
+    );
+    if !allow_above {
+        // the Plus(0) choices left out of the enumeration
+        ctx.add_excluded_known(stores.len() as u64 * (16 - 9) * per_store_caps);
+    }
+
+    ctx.prop("histories", ctx.n(300_000, 20_000_000), case_strategy, |c: &Case| check_case(c, allow_above, &excluded));
+    ctx.add_excluded_known(excluded.load(Ordering::Relaxed));
 }
